@@ -18,6 +18,7 @@ enum { C02_MAXITEMS = 6 };
 struct C02Plan
 {
   int init_threads;    // initTaskingSystem(n), 0: none
+  int lazy_teardown;   // internal back end used without initialisation: the scheduler it created on first use is replaced at the end
   int nitems;
   C02Item items[C02_MAXITEMS];
   int burst;           // additional scheduled closures in one burst
